@@ -120,10 +120,17 @@ class C14(vlib.Check):
             if entry != "from_sdf" and rng.random() < 0.4:
                 case["idmode"] = rng.choice(["all-zero", "arbitrary", "reversed"])
                 self.count("conformer-ids:" + case["idmode"])
+            if k in (2, 3, 4):
+                ref = {k_: v_ for k_, v_ in ref.items() if k_ != "scales"}
+                # (stratified: every run has saving runs that find part of the molecule's per-level files already there,
+                #  written by a shorter run with fewer conformers)
+                entry, nconf, first = "save", rng.choice([2, 3, 5]), -1
+                o["level"] = rng.choice([2, 3, 5])
+                case = {"t": "entry", "ref": ref, "nconf": nconf, "first": first, "opts": o, "entry": entry, "name": name or "named"}
             if entry == "save":
                 case["ext"] = rng.choice(EXTS)
-                case["all_iters"] = rng.random() < 0.5
-                if case["all_iters"] and o["level"] not in (-1, None, 0) and rng.random() < 0.6:
+                case["all_iters"] = rng.random() < 0.5 or k in (2, 3, 4)
+                if case["all_iters"] and o["level"] not in (-1, None, 0) and (rng.random() < 0.6 or k in (2, 3, 4)):
                     # the output directories already hold this molecule's files for *some* of the levels, left by an earlier
                     # (shorter, fewer-conformer) or killed run: not all are there, so the molecule is not skipped
                     case["prior"] = {"level": rng.randrange(0, o["level"]), "first": 1, "truncate": rng.random() < 0.3}
